@@ -25,7 +25,8 @@ META = {
         "operation; sort() does not emulate reverse by sort-then-flip; sort_tracts forwards its key unchanged."
         " Round 7: the key normalisation pipeline is folded on legal keys with blanks / case / 'reverse'; the pattern and method table are located by use; an early return in front of the validating delegate is reported (VALIDATE); lower-casing before the unpacker."
         ' Round 8: one sort pass per key, none skipped; a counter updated through type(self) gives subclasses their own.'
-        ' Round 9: piecemeal lower-casing after the case-insensitive match includes the direction letters.'),
+        ' Round 9: piecemeal lower-casing after the case-insensitive match includes the direction letters.'
+        ' Round 12: no name in the sort code is bound nowhere; a method looked up on self is not a read of the list.'),
     'families': ['TBL', 'RX-ANCHOR', 'SIB', 'PERM', 'FORWARD', 'DEADPARAM', 'SIB-DEFAULTS'],
 }
 
@@ -57,6 +58,7 @@ def check(ctx):
     ctx.attempt(_placeholders_decompose)
     ctx.attempt(_perm, fi)
     ctx.attempt(forward.check_all, module_suffixes=('containers.containers', 'tract.tract', 'plssdesc.plssdesc'))
+    ctx.attempt(forward.undefined_names, [f for f in ctx.repo.funcs.values() if f.module.name.endswith('containers.containers')])
 
 
 def _key_tables(ctx, fi):
@@ -292,7 +294,11 @@ def _defaults(ctx, fi, env):
                 if isinstance(c, ast.Call) and dotted(c.func) == 'extract_safe_num' and len(c.args) == 2 \
                         and isinstance(c.args[1], ast.Constant):
                     used.add(c.args[1].value)
-    ctx.check(used <= set(assume) and used, 'TBL', 'every attribute given to extract_safe_num has an assumed value',
+    if not used:
+        ctx.undecided('TBL', 'every attribute given to extract_safe_num has an assumed value',
+                      'no extract_safe_num(x, <attribute>) call found in the sort-key table (rewritten?)')
+    else:
+      ctx.check(used <= set(assume), 'TBL', 'every attribute given to extract_safe_num has an assumed value',
               detail_bad=f"used {sorted(used)} vs assume {sorted(assume)} (KeyError for a missing one)",
               key="TBL|_sort_custom|assume-keys")
     ctx.notes['sort_defaults'] = dflt
@@ -423,9 +429,16 @@ def _key_purity(ctx, fi):
         for x in ast.walk(nested[f]):
             if isinstance(x, ast.Name) and x.id == 'self' and isinstance(x.ctx, ast.Load):
                 bad.append((f, x))
+    try:
+        methods_ = set(ctx.repo.cls('containers:_TRSTractList').methods)
+    except AnalysisError:
+        methods_ = set()
     for v in sdn[0].value.values:
         for x in ast.walk(v):
             if isinstance(x, ast.Name) and x.id == 'self':
+                par_ = getattr(x, '_parent', None)
+                if isinstance(par_, ast.Attribute) and par_.attr in methods_ and par_.attr not in ('_elements',):
+                    continue        # `self._creation_index`: a method looked up on the container, not its contents
                 bad.append(('sort_defs lambda', x))
     ctx.check(not bad, 'PURITY', f"sort key functions ({', '.join(sorted(reach))}) never read the list being sorted",
               detail_bad=f"{bad[0][0] if bad else ''} reads `self` while list.sort() runs (the list is empty during "
@@ -437,10 +450,10 @@ def _placeholders_decompose(ctx):
     """a TRS with ONE error / undefined component still decomposes (so that
     only that component sorts last): the unpacker accepts the placeholder
     spellings as trs_to_dict presents them (lower-cased)"""
-    from .c12 import unpacker, _subject_prov
+    from .c12 import unpacker, _subject_prov, unpack_func
     rv = unpacker(ctx)
     L = common.lang(ctx, rv)
-    td = ctx.repo.func('TRS.trs_to_dict')
+    td = unpack_func(ctx)
     lowered = 'lower' in {c.split('.')[-1] for c in flow.prov_calls(_subject_prov(ctx, td))}
     mc = lambda a: ctx.fold.get_attr('master_config', 'MasterConfig', a)
     for s_ in (f"154n97w{mc('_ERR_SEC')}", f"{mc('_ERR_TWP')}97w01", f"154n{mc('_ERR_RGE')}01", f"154n97w{mc('_UNDEF_SEC')}"):
